@@ -286,13 +286,13 @@ func (x *provloopsPl) selectStmt(s *ast.SelectStmt) (provloopsSelectInfo, bool) 
 // guards translates a statement list made of pure updates and guarded returns; `fall` renders what follows when
 // the list falls through, `special` may take over a statement (returns handled=true and the full rest translation).
 type provloopsGuardCtx struct {
-	ret      func(r *ast.ReturnStmt) string // Lean term for a return statement
-	brk      string                         // Lean term for `break` ("" = not allowed)
-	cont     string                         // Lean term for `continue`
-	typeOf   func(v string) string          // Lean type of a variable (for let)
-	skip     func(s string) bool            // source prefixes of statements that are ignored
-	special  func(s ast.Stmt, rest []ast.Stmt, ind string) (string, bool)
-	fall     func(ind string) string
+	ret     func(r *ast.ReturnStmt) string // Lean term for a return statement
+	brk     string                         // Lean term for `break` ("" = not allowed)
+	cont    string                         // Lean term for `continue`
+	typeOf  func(v string) string          // Lean type of a variable (for let)
+	skip    func(s string) bool            // source prefixes of statements that are ignored
+	special func(s ast.Stmt, rest []ast.Stmt, ind string) (string, bool)
+	fall    func(ind string) string
 }
 
 func (x *provloopsPl) guards(stmts []ast.Stmt, ind string, g *provloopsGuardCtx) string {
